@@ -104,8 +104,9 @@ def symmetric (n : Nat) (edges : List (Nat × Nat)) : Bool :=
   let bwd := (edges.toArray.map fun e => key (e.2, e.1)).qsort (· < ·)
   fwd == bwd
 
-/-- `none` = inside the domain C05/C06 quantify over; `some why` otherwise -/
-def outsideDomain (inp : Input) : Option String :=
+/-- `none` = inside the domain C05/C06 quantify over; `some why` otherwise.  `roadLike = false` (C06's one-way
+    families): symmetry and connectivity are not required -/
+def outsideDomain (inp : Input) (roadLike : Bool := true) : Option String :=
   let n := inp.n
   let es := inp.plainEdges
   let i32 := fun (x : Int) => decide (-2147483648 ≤ x ∧ x ≤ 2147483647)
@@ -117,8 +118,8 @@ def outsideDomain (inp : Input) : Option String :=
   else if inp.bbits > 4602678819172646912 then some "balance factor outside [0, 0.5] (rejected by the command line)"
   else if !(es.all fun e => decide (e.1 < n ∧ e.2 < n)) then some "edge end point out of range"
   else if es.any (fun e => e.1 == e.2) then some "self-loop"
-  else if !symmetric n es then some "not symmetric"
-  else if !connected n es then some "not connected"
+  else if roadLike && !symmetric n es then some "not symmetric"
+  else if roadLike && !connected n es then some "not connected"
   else if !(inp.coords.all fun c => i32 c.1 && i32 c.2 && i32 (c.1 + c.2) && i32 (c.1 - c.2)) then some "coordinate arithmetic leaves i32"
   else if !((List.range 4).all fun a => allDistinct (inp.coords.map fun c => ChipperRef.axisKeyRef a c.1 c.2)) then
     some "axis keys are not pairwise distinct"
